@@ -171,3 +171,65 @@ fn c01_search_tree_two_params() {
     kani::cover!(r.nseg == 2 && r.seg_is(1, b"x"));
     kani::cover!(r.nseg == 2 && !r.seg_is(1, b"x") && r.n == 8);
 }
+
+// ---- From<base::Node> for Node: the final tree satisfies the documented precondition of `search`
+// (statics in reverse alphabetical order, the param child last), for every registration order and segment bytes,
+// and a path equal to a static child reaches that child, not the param sibling ("the outcome does not depend on registration order",
+// "a static alternative is preferred").
+/// the default NotFound handler is a LazyLock'ed async closure: irrelevant for tree construction, replaced by the inert Dummy proc
+fn stub_default_not_found() -> crate::fang::handler::Handler { crate::fang::handler::Handler { proc: BoxedFPC::from_proc(Dummy) } }
+fn seg2(b: u8) -> &'static str {
+    let raw: &'static mut [u8; 2] = Box::leak(Box::new([b'/', b]));
+    unsafe { std::str::from_utf8_unchecked(raw) }
+}
+fn alnum(b: u8) -> bool { (b >= b'0' && b <= b'9') || (b >= b'a' && b <= b'z') || (b >= b'A' && b <= b'Z') || b == b'-' || b == b'_' || b == b'.' }
+#[kani::proof]
+#[kani::unwind(8)]
+#[kani::stub(crate::fang::handler::Handler::default_not_found, stub_default_not_found)]
+fn c01_finalize_orders_children() {
+    use base::__verif_c01::v_node;
+    let (x, y): (u8, u8) = (kani::any(), kani::any());
+    kani::assume(alnum(x) && alnum(y) && x != y);       // two distinct one-character static segments over the route alphabet (digits included)
+    let order: u8 = kani::any();
+    kani::assume(order < 6);
+    let mk = |k: u8| match k {
+        0 => v_node(Some(base::Pattern::Static(std::borrow::Cow::Borrowed(seg2(x)))), true, vec![]),
+        1 => v_node(Some(base::Pattern::Static(std::borrow::Cow::Borrowed(seg2(y)))), true, vec![]),
+        _ => v_node(Some(base::Pattern::Param(std::borrow::Cow::Borrowed("p"))), true, vec![]),
+    };
+    const PERMS: [[u8; 3]; 6] = [[0, 1, 2], [0, 2, 1], [1, 0, 2], [1, 2, 0], [2, 0, 1], [2, 1, 0]];
+    let p = PERMS[order as usize];
+    let root = v_node(None, true, vec![mk(p[0]), mk(p[1]), mk(p[2])]);
+    let fin = Node::from(root);
+    assert!(fin.children.len() == 3, "finalize: all three children kept");
+    assert!(matches!(fin.children[2].pattern, Pattern::Param), "finalize: the param child is last, whatever the registration order");
+    match (&fin.children[0].pattern, &fin.children[1].pattern) {
+        (Pattern::Static(a), Pattern::Static(b)) => {
+            assert!(a.len() == 2 && b.len() == 2 && a[0] == b'/' && b[0] == b'/', "finalize: static patterns keep their bytes");
+            assert!(a[1] > b[1] && ((a[1] == x && b[1] == y) || (a[1] == y && b[1] == x)), "finalize: statics in reverse alphabetical order, whatever the registration order");
+        }
+        _ => assert!(false, "finalize: the two static children come before the param child"),
+    }
+    // and the search on the real final tree prefers the static alternative for BOTH static segments
+    let raw: &'static [u8; 2] = Box::leak(Box::new([b'/', x]));
+    let mut path = Path::uninit();
+    assert!(path.init_with_request_bytes(&raw[..]).is_ok());
+    let (t, hit) = fin.search_target(&mut path);
+    assert!(hit && matches!(t.pattern, Pattern::Static(s) if s[1] == x), "finalize + search: `/x` reaches the static route /x, not the param sibling");
+    kani::cover!(x >= b'0' && x <= b'9' && y > b'a');
+}
+
+/// compression of a single-static-child chain: "" -> "/a" -> "/b"(handler) becomes one node "/a/b"
+#[kani::proof]
+#[kani::unwind(8)]
+#[kani::stub(crate::fang::handler::Handler::default_not_found, stub_default_not_found)]
+fn c01_finalize_compresses_static_chain() {
+    use base::__verif_c01::v_node;
+    let leafs = vec![v_node(Some(base::Pattern::Param(std::borrow::Cow::Borrowed("p"))), true, vec![])];
+    let b = v_node(Some(base::Pattern::Static(std::borrow::Cow::Borrowed("/b"))), true, leafs);
+    let a = v_node(Some(base::Pattern::Static(std::borrow::Cow::Borrowed("/a"))), false, vec![b]);
+    let root = v_node(None, false, vec![a]);
+    let fin = Node::from(root);
+    assert!(matches!(fin.pattern, Pattern::Static(s) if s.len() == 4 && s[0] == b'/' && s[1] == b'a' && s[2] == b'/' && s[3] == b'b'), "finalize: single static chain compressed to whole segments `/a/b`");
+    assert!(fin.children.len() == 1 && matches!(fin.children[0].pattern, Pattern::Param), "finalize: the compressed node keeps the grandchildren");
+}
